@@ -27,6 +27,7 @@ import Driver.SparseAccept
 import Driver.IStore
 import Driver.ChainAccept
 import Driver.PoolAccept
+import Driver.TarFS
 
 namespace Driver
 open Desync
@@ -649,6 +650,7 @@ def runLine (l : String) : String :=
     | "chunk.disc" => cmdChunkDisc a
     | "sip" => cmdSip a
     | "bst" => cmdBst a
+    | "tarfs.mode" | "tarfs.read" | "tarfs.tar" | "tarfs.write" => (TarFSCmd.run cmd a).getD "bad-op"
     | _ => "bad-op"
 
 end Driver
